@@ -69,10 +69,11 @@ func Serve(s *Spec) {
 					for _, op := range en {
 						in := s.Build(0, req.Path)
 						in.Apply(op)
+						key := in.Key() // before the probes of Check (see xstate.go)
 						sig, what := in.Check()
 						ch := procChild{Op: op, Sig: sig, What: what}
 						if sig == "" {
-							h := hashKey(in.Key())
+							h := hashKey(key)
 							ch.Key = string(fmtHex(h[:]))
 						}
 						in.Close()
